@@ -894,4 +894,26 @@ example :
       = some [⟨40, 48, 5, [[22, 23]]⟩] := by
   decide +kernel
 
+/-! ## A kymograph is exported as one frame from its first line to its last -/
+
+/-- `Kymo._tiff_timestamp_ranges` (with and without dead time): the frame written is `(min, max)` over ALL starts and
+    stops of the line ranges — both are endpoints of some line and bound every endpoint. -/
+theorem kymo_frame_range (lines : List (Int × Int)) (hne : lines ≠ []) :
+    ∃ lo hi, kymoRange lines = some (lo, hi) ∧ lo ∈ endpoints lines ∧ hi ∈ endpoints lines ∧
+      ∀ v ∈ endpoints lines, lo ≤ v ∧ v ≤ hi :=
+  kymoRange_spec lines hne
+
+/-- For lines in time order with `start ≤ stop` (what `line_timestamp_ranges` returns) that frame is
+    `(start of the first line, stop of the last line)`; the min / max over everything is only a detour. -/
+theorem kymo_frame_range_ordered (l : List (Int × Int)) (hne : l ≠ []) (hwf : ∀ r ∈ l, r.1 ≤ r.2)
+    (hs : l.Pairwise fun r s => r.1 ≤ s.1 ∧ r.2 ≤ s.2) :
+    kymoRange l = some ((l.head hne).1, (l.getLast hne).2) :=
+  kymoRange_ordered l hne hwf hs
+
+example : kymoRange [(10, 18), (20, 28), (30, 38)] = some (10, 38) := by decide
+example : (∀ r ∈ [((10 : Int), (18 : Int)), (20, 28), (30, 38)], r.1 ≤ r.2) ∧
+    [((10 : Int), (18 : Int)), (20, 28), (30, 38)].Pairwise (fun r s => r.1 ≤ s.1 ∧ r.2 ≤ s.2) := by decide
+/-- No lines: NumPy's `min` of an empty array raises (`ValueError`). -/
+example : kymoRange [] = none := rfl
+
 end Verif.C18
